@@ -2,13 +2,15 @@ package cpc
 
 import (
 	"bytes"
+	"encoding/json"
 	"fmt"
 	"math/big"
 	"math/rand"
+	"os"
+	"reflect"
 	"sort"
 
 	sdkmath "cosmossdk.io/math"
-	storetypes "cosmossdk.io/store/types"
 	sdk "github.com/cosmos/cosmos-sdk/types"
 	banktypes "github.com/cosmos/cosmos-sdk/x/bank/types"
 	"github.com/ethereum/go-ethereum/common"
@@ -153,25 +155,58 @@ func (w *Erc20World) Obs() trace.M {
 		}
 		allowV[t] = av
 	}
+	// the allowance table through the keeper: per token when the keeper offers a contract-scoped getter
+	// (GetErc20CpcAllowanceOf), otherwise the token-less table is what every token's entry shows
 	allowK := trace.M{}
 	nonzero := 0
-	for _, o := range w.Owners {
-		for _, s := range w.Spenders {
-			if v := c.App.CPCKeeper.GetErc20CpcAllowance(c.Ctx(), w.Addr[o], w.Addr[s]); v.Sign() != 0 {
-				nonzero++
-				allowK[o+">"+s] = Val(v)
+	for i, t := range Tokens {
+		row := trace.M{}
+		for _, o := range w.Owners {
+			for _, s := range w.Spenders {
+				v, scoped := w.keeperAllowance(t, w.Addr[o], w.Addr[s])
+				if v.Sign() != 0 {
+					if scoped || i == 0 {
+						nonzero++
+					}
+					row[o+">"+s] = Val(v)
+				}
 			}
 		}
+		allowK[t] = row
 	}
-	// entries of the allowance store outside the projected pairs (must stay 0)
+	// entries of the allowance store outside the projected pairs (must not exist)
 	st := c.Ctx().KVStore(c.App.GetKey(cpctypes.StoreKey))
-	it := storetypes.KVStorePrefixIterator(st, cpctypes.KeyPrefixErc20CpcAllowance)
+	it := st.Iterator(nil, nil)
 	n := 0
 	for ; it.Valid(); it.Next() {
-		n++
+		if k := it.Key(); len(k) > 0 && k[0] >= cpctypes.KeyPrefixErc20CpcAllowance[0] {
+			n++
+		}
 	}
 	it.Close()
 	return trace.M{"bal": bal, "balV": balV, "supply": sup, "supplyV": supV, "allowV": allowV, "allowK": allowK, "strayAllow": n - nonzero}
+}
+
+// keeperAllowance reads the allowance store through the keeper's exported getter.
+func (w *Erc20World) keeperAllowance(t string, o, s common.Address) (*big.Int, bool) {
+	ctx := w.C.Ctx()
+	k := reflect.ValueOf(w.C.App.CPCKeeper)
+	if m := k.MethodByName("GetErc20CpcAllowanceOf"); m.IsValid() {
+		out := m.Call([]reflect.Value{reflect.ValueOf(ctx), reflect.ValueOf(w.Tok[t]), reflect.ValueOf(o), reflect.ValueOf(s)})
+		return out[0].Interface().(*big.Int), true
+	}
+	return w.C.App.CPCKeeper.GetErc20CpcAllowance(ctx, o, s), false
+}
+
+// anyAllowance is the largest allowance owner -> spender over the tokens (generator bias only).
+func (w *Erc20World) anyAllowance(o, s string) *big.Int {
+	best := new(big.Int)
+	for _, t := range Tokens {
+		if v, _ := w.keeperAllowance(t, w.Addr[o], w.Addr[s]); v.Cmp(best) > 0 {
+			best = v
+		}
+	}
+	return best
 }
 
 // Erc20Call describes one call for the trace and for the encoder.
@@ -327,9 +362,13 @@ func (w *Erc20World) amount(t, owner, spender, payer string) *big.Int {
 	}
 	al := new(big.Int)
 	if spender != "" {
-		al = w.C.App.CPCKeeper.GetErc20CpcAllowance(w.C.Ctx(), w.Addr[owner], w.Addr[spender])
+		al = w.anyAllowance(owner, spender)
 	}
 	one := big.NewInt(1)
+	if spender != "" && al.Sign() > 0 && al.IsInt64() && w.R.Intn(3) == 0 {
+		// part of a finite allowance: approve-spend-respend sequences
+		return big.NewInt(1 + w.R.Int63n(al.Int64()))
+	}
 	switch w.R.Intn(12) {
 	case 0:
 		return new(big.Int)
@@ -411,7 +450,7 @@ func (w *Erc20World) GenStep(out *trace.W, stats map[string]int) {
 	// owners that granted the caller something (on either token: the code's table has no token)
 	var granted []string
 	for _, o := range w.Owners {
-		if o != caller && w.C.App.CPCKeeper.GetErc20CpcAllowance(w.C.Ctx(), w.Addr[o], w.Addr[caller]).Sign() > 0 {
+		if o != caller && w.anyAllowance(o, caller).Sign() > 0 {
 			granted = append(granted, o)
 		}
 	}
@@ -467,4 +506,63 @@ func GenErc20(out *trace.W, seed int64, traces, steps int) map[string]int {
 	return stats
 }
 
-// ReplayErc20 is filled in by replay.go.
+// ScriptStep is one step of a behaviour generated by `tlc -simulate` on Erc20Cpc.tla (variable hist).
+type ScriptStep struct {
+	Kind string `json:"kind"` // call | send
+	T    string `json:"t"`
+	M    string `json:"m"`
+	C    string `json:"c"`
+	A1   string `json:"a1"`
+	A2   string `json:"a2"`
+	Amt  struct {
+		T string `json:"t"`
+		V int64  `json:"v"`
+	} `json:"amt"`
+}
+
+// ReplayErc20 (B2) replays TLC-generated behaviours as real transactions: one fresh chain per behaviour;
+// a call by an EOA is issued directly, a call by "fc" / "fd" through the CALL / DELEGATECALL forwarder
+// with an EOA paying; the same trace events are written, so TraceErc20Cpc.tla judges the outcome.
+func ReplayErc20(out *trace.W, script string) map[string]int {
+	stats := map[string]int{}
+	bz, err := os.ReadFile(script)
+	if err != nil {
+		panic(err)
+	}
+	var behaviours [][]ScriptStep
+	if err := json.Unmarshal(bz, &behaviours); err != nil {
+		panic(err)
+	}
+	for i, b := range behaviours {
+		tid := fmt.Sprintf("erc20-sim-%d", i)
+		w := NewErc20World(int64(7919*i+1), tid)
+		out.Emit(trace.M{"ev": "Genesis", "tid": tid, "tokens": Tokens, "holders": w.Holders, "owners": w.Owners, "spenders": w.Spenders,
+			"callers": w.Owners, "obs": w.Obs()})
+		for _, st := range b {
+			amt := big.NewInt(st.Amt.V)
+			switch st.Amt.T {
+			case "MAXU":
+				amt = new(big.Int).Sub(MaxU256, amt)
+			case "HALF":
+				amt = new(big.Int).Sub(Half256, amt)
+			}
+			if st.Kind == "send" {
+				if w.Acct[st.C] == nil {
+					continue // a contract cannot sign a native message
+				}
+				w.DoBankSend(out, st.T, st.C, st.A1, st.Amt.V, stats)
+				continue
+			}
+			k := Erc20Call{Token: st.T, Method: st.M, Caller: st.C, Payer: st.C, Via: "direct", A1: st.A1, A2: st.A2, Amt: amt}
+			switch st.C {
+			case "fc":
+				k.Via, k.Payer = "call", w.pick(w.EOAs)
+			case "fd":
+				k.Via, k.Payer = "delegatecall", w.pick(w.EOAs)
+			}
+			w.DoCall(out, k, stats)
+		}
+		stats["traces"]++
+	}
+	return stats
+}
